@@ -137,6 +137,37 @@ def walk(n):
         stack.extend(reversed(ch))
 
 
+def walk_no_closure(n):
+    """Like walk, but does not descend into closure bodies or nested items (a `return` there leaves the closure only)."""
+    stack = [n]
+    while stack:
+        x = stack.pop()
+        if not isinstance(x, dict):
+            continue
+        yield x
+        if x.get("k") in ("closure", "item"):
+            continue
+        stack.extend(reversed(list(children(x))))
+
+
+def escapes(fn):
+    """Control-flow escapes other than error exits: `break`, `continue`, and any `return` whose value is not `Err(..)`.
+    The rule layer interprets function bodies as structured code (fall-through path + error exits); an escape is a
+    path it does not follow, so a function containing one cannot be decided by it."""
+    out = []
+    if not fn.get("body"):
+        return out
+    for x in walk_no_closure(fn["body"]):
+        k = x.get("k")
+        if k in ("break", "continue"):
+            out.append(x)
+        elif k == "return":
+            v = x.get("e")
+            if not (v is not None and v.get("k") == "call" and is_path(v["f"]) and v["f"]["p"].split("::")[-1] == "Err"):
+                out.append(x)
+    return out
+
+
 def walk_exprs(n, skip_closures=False):
     for x in walk(n):
         yield x
@@ -346,6 +377,7 @@ class Facts:
         self.item_macros = []    # (file, node)
         self.mods = []           # (file, node)
         self.uses = []
+        self.touched = {}        # id(fn) -> (label, fn): every function body a rule of this run looked up (see escapes())
         for f in doc["files"]:
             rel = os.path.relpath(f["path"], root)
             self.files[rel] = f
@@ -414,8 +446,13 @@ class Facts:
         for im in self.impls_of(self_name, trait, self_ty):
             for fn in im["fns"]:
                 if fn["name"] == fname:
+                    self.touched[id(fn)] = ("%s::%s" % (im["self_ty"].split("<")[0], fname), fn)
                     return fn
         return None
+
+    def touch(self, label, fn):
+        self.touched[id(fn)] = (label, fn)
+        return fn
 
     def need_method(self, self_name, fname, trait="*", self_ty=None):
         m = self.method(self_name, fname, trait, self_ty)
@@ -424,7 +461,10 @@ class Facts:
         return m
 
     def free_fn(self, mod, name):
-        return self.free_fns.get((mod, name))
+        fn = self.free_fns.get((mod, name))
+        if fn is not None:
+            self.touched[id(fn)] = ("%s::%s" % (mod, name), fn)
+        return fn
 
     def need_free_fn(self, mod, name):
         f = self.free_fn(mod, name)
